@@ -255,7 +255,8 @@ def r02_5(ctx: Ctx) -> None:
         ctx.check(ok, "R02.5", f, link[0].test, "links are archived as links unless dereference is on", "the link arm is not `is_symlink() and not dereference`")
     if dr:
         loops = [n for s in dr[0].body for n in ast.walk(s) if isinstance(n, ast.For)]
-        ok = bool(loops) and isinstance(loops[0].iter, ast.Call) and dotted(loops[0].iter.func) == "sorted" and any(attr_tail(c) == "listdir" for c in ast.walk(loops[0].iter) if isinstance(c, ast.Call)) \
+        ok = bool(loops) and isinstance(loops[0].iter, ast.Call) and dotted(loops[0].iter.func) == "sorted" and len(loops[0].iter.args) == 1 \
+            and isinstance(loops[0].iter.args[0], ast.Call) and attr_tail(loops[0].iter.args[0]) == "listdir" \
             and any(isinstance(c, ast.Call) and attr_tail(c) == "_writeall" and any("joinpath" in norm(a) for a in c.args) for c in ast.walk(loops[0]))
         unfiltered = bool(loops) and not any(isinstance(x, (ast.If, ast.Continue, ast.Break)) for s in loops[0].body for x in ast.walk(s) if not isinstance(x, ast.IfExp))
         ctx.check(ok and unfiltered, "R02.5", f, dr[0], "directory arm recurses over all sorted entries", "the directory arm does not recurse over every entry of sorted(listdir())", construct="_writeall recursion")
